@@ -190,15 +190,26 @@ def run(ctx):
                 else:
                     ctx.check('R2', f'{F}: return expression `{norm(v)}` is a recognised truthful form', False, F, f'return-form:{norm(v)}',
                               f'{F} returns `{norm(v)}`, which is not derived from the liveness of the child', where=where)
-            # _dead = True only under not-alive evidence
+        # _dead = True only under evidence that the local child (thread / process object) is not alive
+        if f.name in ('wait', 'terminate', 'is_alive'):
+            dom = g.dominators(edge_ok=is_flow)
+            lv = vars_from(f, ('is_alive',))
+            ev = guard_dsts(g, tuple('not ' + v for v in lv), 'true') | guard_dsts(g, tuple(lv), 'false')
+            # the false side of a *pure* `self._child.is_alive()` test
+            for n in g.nodes:
+                if n.kind == 'test' and isinstance(n.stmt, ast.If) and n.part in (None, 'post'):
+                    t = n.stmt.test
+                    if isinstance(t, ast.Call) and last_attr(t) == 'is_alive' and receiver(t) == 'self._child':
+                        ev |= {e.dst.id for e in n.succ if e.kind == 'false'}
+                    if isinstance(t, ast.UnaryOp) and isinstance(t.op, ast.Not) and isinstance(t.operand, ast.Call) and last_attr(t.operand) == 'is_alive' and receiver(t.operand) == 'self._child':
+                        ev |= {e.dst.id for e in n.succ if e.kind == 'true'}
             for n in g.nodes:
                 if n.kind == 'stmt' and n.part in (None, 'store') and isinstance(n.stmt, ast.Assign) and in_stmts(n.stmt, stmts) and any(is_self_attr(t, '_dead') for t in n.stmt.targets) \
                         and isinstance(n.stmt.value, ast.Constant) and n.stmt.value.value is True:
-                    lv = vars_from(f, ('is_alive', 'recv_msg'))
-                    ev = guard_dsts(g, tuple('not ' + v for v in lv), 'true') | guard_dsts(g, tuple(lv), 'false')
-                    ok = bool(dom.get(n.id, set()) & ev) or 'remote_dead' in norm(n.stmt)
-                    ctx.check('R2', f'{F}: `_dead = True` at line {n.line} is set under not-alive evidence', ok, F, 'dead-flag-without-evidence',
-                              f'{F} caches the worker as dead without having observed it dead: is_alive() returns False for a running worker from then on', where=loc(f, n.stmt))
+                    ok = bool(dom.get(n.id, set()) & ev)
+                    ctx.check('R2', f'{F}: `_dead = True` at line {n.line} is set under evidence that the local child is not alive', ok, F, 'dead-flag-without-evidence',
+                              f'{F} caches the worker as dead on a path where its local child (thread / process object) has not been observed dead: is_alive() returns False - and wait() '
+                              'returns True at once - for a worker that is still running (e.g. a frontend thread still delivering results)', where=loc(f, n.stmt))
         # ------------------------------------------------------------ R3 typestate: start-only attributes and closed endpoints
         start_only = start_only_attrs(ctx, cls)
         dead_false = guard_dsts(g, DEAD_GUARDS, 'false') | guard_dsts(g, ('self.is_alive()',), 'true')
@@ -283,6 +294,32 @@ def run(ctx):
                     ctx.check('R5', f'{F}: {exc} from {callee}() cannot escape', False, F, f'escapes:{exc}@{callee}',
                               f'{exc} raised by `{short(call) if call is not None else "a callee"}` escapes {F}: the call raises instead of returning whether the worker is dead '
                               '(e.g. the child ended between the liveness check and the request)', where=loc(f, call) if call is not None else loc(f, f.node))
+    # the dead cache may only be set under evidence, wherever it is set (not only in wait/terminate/is_alive)
+    done = {f.qualname for _, f, _, _ in us}
+    for name in PUBLIC:
+        cls = P.cls(name)
+        for c in cls.mro():
+            if isinstance(c, str):
+                continue
+            for f in c.methods.values():
+                if f.qualname in done or f.name in ('__init__',):
+                    continue
+                done.add(f.qualname)
+                stores = [st for st in walk_local(f.node) if isinstance(st, ast.Assign) and any(is_self_attr(t, '_dead') for t in st.targets) and isinstance(st.value, ast.Constant) and st.value.value is True]
+                if not stores:
+                    continue
+                g = ctx.an.cfg(f, c)
+                lv = vars_from(f, ('is_alive',))
+                ev = guard_dsts(g, tuple('not ' + v for v in lv), 'true') | guard_dsts(g, tuple(lv), 'false')
+                dom = g.dominators(edge_ok=is_flow)
+                for st in stores:
+                    nodes = [n for n in g.nodes if n.stmt is st]
+                    # start-up failure paths: the child never came up (followed by a raise / in _start of a failed server process)
+                    startup = f.name in ('_start', '__setstate__')
+                    ok = startup or (bool(nodes) and all(dom.get(n.id, set()) & ev for n in nodes))
+                    ctx.check('R2', f'{f.short}: `_dead = True` at line {st.lineno} is set under evidence (or while starting up)', ok, f.short, f'dead-flag-without-evidence@{f.name}',
+                              f'{f.short} marks the worker dead without having observed its child dead: is_alive() returns False and wait()/terminate() return True at once for a running worker',
+                              where=loc(f, st))
     ctx.stats.update({'blocking_sites': n_block, 'returns': n_ret, 'guarded_uses': n_use})
     ctx.floor('blocking call sites', n_block, 12)
     ctx.floor('return statements', n_ret, 18)
